@@ -50,6 +50,10 @@ class AppError(Exception):
     """Application exception unknown to the framework."""
 
 
+class HandlerBug(Exception):
+    """What a faulty error handler raises (handler action 'plain_error')."""
+
+
 # ----------------------------------------------------------------- reference interpreter
 # Written from the documentation, not from falcon's code:
 #  * process_request top-down; stop at the first one that sets resp.complete or raises
@@ -171,6 +175,10 @@ def _perform(action, resp):
         raise falcon.HTTPStatus(falcon.HTTP_202)
     elif action == 'app_error':
         raise AppError('generated fault')
+    elif action == 'plain_error':
+        raise HandlerBug('the error handler itself failed')
+    elif action == 'attr_error':
+        raise AttributeError("'NoneType' object has no attribute 'lookup'")  # an ordinary bug inside the callable
     else:
         raise HarnessError('bad action %r' % (action,))
 
@@ -362,6 +370,21 @@ def run_request_case(case):
         res = W.call(app, W.build_environ(method='GET', raw_path=path), monitor=False)
         started = res.status is not None
     expected, reached, skipped = ref_trace(case)
+    if case.get('app_handler') == 'plain_error' and any(e[0] == 'handler' for e in expected):
+        # the error handler itself fails with an ordinary exception.  What the framework does then is not documented
+        # beyond "it is a failure": the exception may escape to the server at once, or be turned into a 5xx while
+        # unwinding continues - but it must not be swallowed into a successful response
+        cut = [e[0] for e in expected].index('handler') + 1
+        if trace != expected[:cut] and trace != expected:
+            raise Violation(
+                'call_sequence',
+                'case=%r\n  recorded: %r\n  documented discipline up to the failing handler: %r (optionally followed by %r)'
+                % (case, trace, expected[:cut], expected[cut:]))
+        code = (res.code if started else None)
+        if not (isinstance(res.error, HandlerBug) or (res.error is None and code is not None and code >= 500)):
+            raise Violation('handler_failure_swallowed', 'case=%r: the error handler raised %s; the app neither let it escape nor '
+                            'answered 5xx (status %r, escaped %r)' % (case, HandlerBug.__name__, code, res.error))
+        return expected, reached, skipped
     if trace != expected:
         raise Violation(
             'call_sequence',
@@ -449,6 +472,7 @@ class ExhaustiveWsgi(Suite):
                         for s in sites:
                             for a, h in _single_faults():
                                 yield dict(base, actions={s: a}, app_handler=h)
+                            yield dict(base, actions={s: 'app_error'}, app_handler='plain_error')
                         if tier == 'thorough':
                             for s1, s2 in itertools.combinations(sites, 2):
                                 for a1, a2, h in _double_faults():
@@ -515,7 +539,7 @@ def _stack_case(draw):
         sites.append('sink')
     nf = min(len(sites), draw(st.sampled_from([0, 1, 1, 2, 2, 2, 3, 3])))
     chosen = draw(st.lists(st.sampled_from(sites), min_size=nf, max_size=nf, unique=True)) if nf else []
-    actions = {s: draw(st.sampled_from(ACTIONS)) for s in chosen}
+    actions = {s: draw(st.sampled_from(ACTIONS + ('attr_error', 'app_error'))) for s in chosen}
     return {
         'stack': stack,
         'independent': independent,
@@ -523,7 +547,7 @@ def _stack_case(draw):
         'mw': mw,
         'class_hooks': hooks['class_hooks'],
         'method_hooks': hooks['method_hooks'],
-        'app_handler': draw(st.sampled_from(HANDLER_ACTIONS)),
+        'app_handler': draw(st.sampled_from(HANDLER_ACTIONS + ('plain_error',))),
         'actions': actions,
         'batches': draw(st.one_of(st.just([]), st.just([]), st.lists(st.integers(0, 4), min_size=1, max_size=3))),
         'proxied': draw(st.one_of(st.just([]), st.just([]), st.lists(st.integers(0, 3), max_size=2, unique=True))),
@@ -603,6 +627,9 @@ def run_lifespan_case(case):
                 raise AppError('generated lifespan fault')
             if fault == 'http_error':
                 raise falcon.HTTPServiceUnavailable()
+            if fault == 'attribute_error':
+                # a bug inside the handler (self.pool is None ...): a failure like any other
+                raise AttributeError("'NoneType' object has no attribute 'connect'")
         return method
 
     comps = []
@@ -673,7 +700,7 @@ class LifespanEnum(Suite):
                 for script in (['startup', 'shutdown'], ['startup']):
                     yield {'comps': comps, 'script': script, 'faults': []}
                     for p, i in sites:
-                        for kind in ('app_error', 'http_error'):
+                        for kind in ('app_error', 'http_error', 'attribute_error'):
                             yield {'comps': comps, 'script': script, 'faults': [[p, i, kind]]}
                 # the same app through a second / third lifespan cycle: a cycle that failed (at any site) or stopped after
                 # startup must not change what the next, clean cycle does
@@ -702,7 +729,7 @@ def _lifespan_case(draw):
     sites = [(p, i) for i, c in enumerate(comps) for p in ('startup', 'shutdown') if c[p]]
     nf = min(len(sites), draw(st.sampled_from([0, 1, 1, 2, 3])))
     chosen = draw(st.lists(st.sampled_from(sites), min_size=nf, max_size=nf, unique=True)) if nf else []
-    faults = [[p, i, draw(st.sampled_from(['app_error', 'http_error']))] for p, i in chosen]
+    faults = [[p, i, draw(st.sampled_from(['app_error', 'http_error', 'attribute_error']))] for p, i in chosen]
     script = draw(st.sampled_from([['startup', 'shutdown'], ['startup', 'shutdown'], ['startup']]))
     if draw(st.integers(0, 2)) == 0:
         return {'comps': comps, 'script': script, 'faults': faults}
